@@ -91,9 +91,12 @@
        Props/C17.v); the remaining clauses (len <= cap, number of yielded
        entries = len) hold for every environment (C05_step_safe,
        C05_iter_run_spec);
-     - C05_srun_refines_state starts from any SAbs state; its instance for
-       Set::new() of any capacity is srun_refines_state_new in Proofs/SetDict.v
-       (not restated here).
+     - CLOSED: C05_srun_refines_state starts from any SAbs state; its instance
+       for Set::new() of any capacity is C05_srun_refines_state_new (AUDIT
+       ADDENDUM at the end of this file, which also states is_empty / len /
+       lookups of yielded keys on the operations: C05_is_empty_spec,
+       C05_len_spec, C05_yielded_get, C05_yielded_get_key_value,
+       C05_yielded_get_reachable, C05_iter_run_spec_set, C05_iter_run_all_count).
    ========================================================================== *)
 Require Import Model.Base Model.Slots Model.MapOps Model.SetOps Model.EntryOps Model.Fmt Model.Exec.
 Require Import Proofs.Hoare Proofs.Inv Proofs.Spec Proofs.Lawful Proofs.IterSpec Proofs.EqClone
@@ -354,3 +357,191 @@ Qed.
 
 Example C05_example_UniqX_init : UniqX (init_world 2 2 0 0).
 Proof. exact (init_UniqX 2 2 0 0). Qed.
+
+(* ========================================================================== *)
+(* AUDIT ADDENDUM (Proofs/MoreDict.v): clauses of C05 that the theorems above
+   stated only on the abstraction or only as list facts.                      *)
+(* ========================================================================== *)
+Require Import Proofs.MoreDict.
+
+(* -------------------------------------------------------------------------- *)
+(* "is_empty() is equivalent to len() == 0", on the OPERATIONS of the model
+   (Model/MapOps.v: length_ = Map::len, is_empty = Map::is_empty; Set::len /
+   Set::is_empty are the instance V := unit).  EVERY state and every
+   environment: no invariant, no lawfulness is needed.                         *)
+Theorem C05_len_spec :
+  forall (K V T : Type) (w : world K V T), length_ w = Ok (len (self w)) w.
+Proof. exact (@len_spec). Qed.
+Print Assumptions C05_len_spec.
+
+Theorem C05_is_empty_spec :
+  forall (K V T : Type) (w : world K V T), is_empty w = Ok (Nat.eqb (len (self w)) 0) w.
+Proof. exact (@is_empty_spec). Qed.
+Print Assumptions C05_is_empty_spec.
+
+Theorem C05_is_empty_iff_len_zero :
+  forall (K V T : Type) (w : world K V T),
+  exists (b : bool) (n : nat),
+    is_empty w = Ok b w /\ length_ w = Ok n w /\ (b = true <-> n = 0).
+Proof. exact (@is_empty_iff_len_zero). Qed.
+Print Assumptions C05_is_empty_iff_len_zero.
+
+Theorem C05_capacity_spec :
+  forall (K V T : Type) (w : world K V T), capacity w = Ok (cap (self w)) w.
+Proof. exact (@capacity_spec). Qed.
+Print Assumptions C05_capacity_spec.
+
+(* -------------------------------------------------------------------------- *)
+(* "every yielded key can be looked up and returns the value yielded with it",
+   on the OPERATIONS get / get_key_value / get_mut (C05_lookup_uniq_In is the
+   list fact behind it).
+     nth_error (Spec.elems (self w)) i = Some p   iteration yields, at slot i,
+                       the pair p (C05_iter_run_spec: the slots 0..len-1 in order);
+     cq q = ck (fst p) q is (any borrowed form of) the yielded key;
+     r = Some i        the lookup returns a reference into slot i, the slot the
+                       pair was yielded from; get_deref dereferences it: the
+                       very pair p, key object and value.                      *)
+Theorem C05_yielded_get :
+  forall (K V Q T : Type) (E : env K V Q T) (ck : K -> N) (cq : Q -> N),
+  Lawful E ck cq ->
+  forall (q : Q) (i : nat) (p : K * V) (w : world K V T),
+  WF (self w) ->
+  Uniq ck (Spec.elems (self w)) ->
+  nth_error (Spec.elems (self w)) i = Some p ->
+  cq q = ck (fst p) ->
+  wp (get E q)
+    (fun (r : option nat) (w' : world K V T) => r = Some i /\ stable w w')
+    (fun _ : world K V T => False) w.
+Proof. exact (@yielded_get). Qed.
+Print Assumptions C05_yielded_get.
+
+Theorem C05_yielded_get_key_value :
+  forall (K V Q T : Type) (E : env K V Q T) (ck : K -> N) (cq : Q -> N),
+  Lawful E ck cq ->
+  forall (q : Q) (i : nat) (p : K * V) (w : world K V T),
+  WF (self w) ->
+  Uniq ck (Spec.elems (self w)) ->
+  nth_error (Spec.elems (self w)) i = Some p ->
+  cq q = ck (fst p) ->
+  wp (get_key_value E q)
+    (fun (r : option nat) (w' : world K V T) => r = Some i /\ stable w w')
+    (fun _ : world K V T => False) w.
+Proof. exact (@yielded_get_key_value). Qed.
+Print Assumptions C05_yielded_get_key_value.
+
+Theorem C05_yielded_get_mut :
+  forall (K V Q T : Type) (E : env K V Q T) (ck : K -> N) (cq : Q -> N),
+  Lawful E ck cq ->
+  forall (q : Q) (i : nat) (p : K * V) (w : world K V T),
+  WF (self w) ->
+  Uniq ck (Spec.elems (self w)) ->
+  nth_error (Spec.elems (self w)) i = Some p ->
+  cq q = ck (fst p) ->
+  wp (get_mut E q)
+    (fun (r : option nat) (w' : world K V T) => r = Some i /\ stable w w')
+    (fun _ : world K V T => False) w.
+Proof. exact (@yielded_get_mut). Qed.
+Print Assumptions C05_yielded_get_mut.
+
+Theorem C05_yielded_get_deref :
+  forall (K V Q T : Type) (E : env K V Q T) (ck : K -> N) (cq : Q -> N),
+  Lawful E ck cq ->
+  forall (q : Q) (i : nat) (p : K * V) (w : world K V T),
+  WF (self w) ->
+  Uniq ck (Spec.elems (self w)) ->
+  nth_error (Spec.elems (self w)) i = Some p ->
+  cq q = ck (fst p) ->
+  wp (get_deref E q)
+    (fun (r : option (K * V)) (w' : world K V T) => r = Some p /\ stable w w')
+    (fun _ : world K V T => False) w.
+Proof. exact (@yielded_get_deref). Qed.
+Print Assumptions C05_yielded_get_deref.
+
+(* ... on EVERY state reached from Map::new() of any capacity by any history
+   (container-raised panics included): WF and Uniq are discharged *)
+Theorem C05_yielded_get_reachable :
+  forall (K V Q T : Type) (E : env K V Q T) (debug : bool) (ck : K -> N) (cq : Q -> N),
+  Lawful E ck cq ->
+  forall (n : nat) (ops : list (@dop K V Q)) (s : T) (lg : list event),
+  exists wf : world K V T,
+    mfinal E debug ops {| cb := s; log := lg; self := new_map n |} = Some wf /\
+    forall (q : Q) (i : nat) (p : K * V),
+      nth_error (Spec.elems (self wf)) i = Some p ->
+      cq q = ck (fst p) ->
+      wp (get E q)
+        (fun (r : option nat) (w' : world K V T) => r = Some i /\ stable wf w')
+        (fun _ : world K V T => False) wf /\
+      wp (get_key_value E q)
+        (fun (r : option nat) (w' : world K V T) => r = Some i /\ stable wf w')
+        (fun _ : world K V T => False) wf /\
+      wp (get_deref E q)
+        (fun (r : option (K * V)) (w' : world K V T) => r = Some p /\ stable wf w')
+        (fun _ : world K V T => False) wf.
+Proof. exact (@yielded_get_reachable). Qed.
+Print Assumptions C05_yielded_get_reachable.
+
+(* the hypotheses on m3: slot 1 yields (k_ 3 6, v_ 4 8); QCls 6 is a borrowed form
+   of that key; the model's get returns slot 1 *)
+Example C05_example_yielded_get :
+  nth_error (Spec.elems m3) 1 = Some (k_ 3 6, v_ 4 8) /\
+  qcls (QCls 6) = kcls (fst (k_ 3 6, v_ 4 8)) /\
+  match get_deref (env_map {| sc_adv := false; sc_seed := 0; sc_fk := 0; sc_fa := 0 |})
+                  (QCls 6) (w_of m3) with
+  | Ok r w' => r = Some (k_ 3 6, v_ 4 8) /\ self w' = m3
+  | _ => False
+  end.
+Proof. vm_compute. repeat split; reflexivity. Qed.
+
+(* -------------------------------------------------------------------------- *)
+(* "every state reachable ..., for all capacities", for Set: the instance of
+   C05_srun_refines_state at Set::new() of any capacity n.                    *)
+Theorem C05_srun_refines_state_new :
+  forall (K Q T : Type) (E : env K unit Q T) (debug : bool) (ck : K -> N) (cq : Q -> N),
+  Lawful E ck cq ->
+  forall (n : nat) (ops : list (@sop K Q)) (t : T) (lg : list event),
+  exists wf : world K unit T,
+    smfinal E debug ops {| cb := t; log := lg; self := new_map n |} = Some wf /\
+    SAbs ck (self wf) (fsfinal ck cq n ops []) /\
+    cap (self wf) = n.
+Proof. exact (@srun_refines_state_new). Qed.
+Print Assumptions C05_srun_refines_state_new.
+
+(* -------------------------------------------------------------------------- *)
+(* "the number of yielded entries equals len()" for Set iteration and for the
+   keys / values / iter_mut / values_mut kinds.  A Set is Map<T,(),N>
+   (Model/SetOps.v), its iterator is the Map cursor at V := unit; the six
+   iterator kinds (iter, iter_mut, keys, values, values_mut, Set::iter) share the
+   ONE cursor [iter] / [iter_next]: each yields the slot index, the kinds differ
+   only in the projection applied to the pair in that slot (Exec.r_item: keys =
+   fst, values = snd; Exec.iter_steps runs them all through iter_next).        *)
+Theorem C05_iter_run_spec_set :
+  forall (K T : Type) (n : nat) (w : world K unit T),
+  WF (self w) ->
+  wp (c <- iter ;; iter_run n c)
+    (fun (r : list nat * cursor) (w' : world K unit T) =>
+       self w' = self w /\
+       log w' = log w /\
+       fst r = seq 0 (Nat.min n (len (self w))) /\
+       snd r = (Nat.min n (len (self w)), len (self w)))
+    (fun _ : world K unit T => False)
+    w.
+Proof. exact (fun K T => @iter_run_spec K unit T). Qed.
+Print Assumptions C05_iter_run_spec_set.
+
+(* run to the end (any number of steps >= len): exactly len() items, the slots
+   0 .. len-1 each once, the cursor exhausted, nothing touched; any V *)
+Theorem C05_iter_run_all_count :
+  forall (K V T : Type) (n : nat) (w : world K V T),
+  WF (self w) ->
+  len (self w) <= n ->
+  wp (c <- iter ;; iter_run n c)
+    (fun (r : list nat * cursor) (w' : world K V T) =>
+       length (fst r) = len (self w) /\
+       fst r = seq 0 (len (self w)) /\
+       cursor_len (snd r) = 0 /\
+       self w' = self w /\
+       log w' = log w)
+    (fun _ : world K V T => False)
+    w.
+Proof. exact (@iter_run_all_count). Qed.
+Print Assumptions C05_iter_run_all_count.
